@@ -79,3 +79,13 @@ def rel(a, b, floor=0.0):
     if not np.isfinite(a):
         return float("inf")
     return abs(a - b) / max(abs(b), floor, 1e-300)
+
+
+def init_conditioning(std0, scale_min, h_min, q):
+    """A-priori amplification for an inexact initial state: ratio = std0 / (scale * h_min^(q+1/2)) is the initial uncertainty in units of
+    the process noise of the smallest step; the first updates cancel ~ratio * 1e-16 of their terms (observed up to 5e-13 * ratio).
+    Returns max(1, ratio / 3e3); callers multiply their allowance by it and do not enumerate grids where it exceeds 1e4."""
+    import numpy as np
+
+    ratio = float(np.max(std0)) / (float(scale_min) * float(h_min) ** (q + 0.5))
+    return max(1.0, ratio / 3e3)
